@@ -370,3 +370,19 @@ PROPS["C18"] = {
     "counter_floors": {"quick": {"liveness_forks": 600000, "crawler_flows_detected": 80000, "crawler_reachable_assertions_checked": 3000000}},
     "assumptions": ["the reference interpreter's semantics (DESIGN 3.4); the two branches of a fork consume the same pseudo-random stream, so havoc values and successor choices coincide while the paths coincide"],
 }
+
+ENGINES[3]["serves_properties"] = ["C01", "C02", "C03", "C04", "C05", "C09", "C10", "C11", "C12", "C14", "C16", "C17", "C18"]
+ENGINES[3]["path"] += ", e_xform.cc"
+PROPS["C17"] = {
+    "technique": "translation-validation style runtime monitor: the CFG object produced by the real transformations is checked structurally and decompiled statement by statement; exit-reaching executions of the reference interpreter on the original and on the transformed program are matched in both directions by a bounded exhaustive search from the same initial state",
+    "level_text": "generated CFGs (chains, diamonds, nested and irreducible loops, unreachable blocks, dead ends, self loops; numeric/boolean statements, selects, casts, synthesised assertions, function declaration with outputs) go through random pipelines of cfg::simplify, dead_code_elimination and lower_safe_assertions (safe set from the real forward analyzer + assertion checker over intervals or zones); the result must keep entry and exit, have symmetric edges and no dangling labels; for 6 random executions per initial state that reach the exit in one program, a depth-first search over the other program must find an execution from the same initial state with the same sequence of passed assumes/assertions (a lowered assertion counts as an assume) and the same output values. Held on the executions run.",
+    "level_note": "programs for this engine have no havoc and no calls (executions are determined by the initial state and the branch choices) and no division by a variable or by zero (the property's proviso: no removed statement can fail); a search stopped by its node/depth budget is inconclusive (counted)",
+    "rule": "a case is (CFG, pipeline); non-trivial = the pipeline removed or merged a block, removed a statement or lowered an assertion and at least one execution was matched; distinct = hash of program + pipeline",
+    "jobs": {
+        "quick": [{"name": "xform", "bin": "crabv", "engine": "xform", "cases": 20000}],
+        "thorough": [{"name": "xform", "bin": "crabv", "engine": "xform", "cases": 600000}],
+    },
+    "floor": {"quick": 6000, "thorough": 200000},
+    "counter_floors": {"quick": {"executions_matched": 300000, "statements_removed": 15000, "blocks_removed_or_merged": 3000, "assertions_lowered": 4000}},
+    "assumptions": _FWD_ASSUME[:1] + ["the decompiler maps every statement of the transformed crab CFG back to the harness' representation (an unsupported statement is a harness failure, exit 2)"],
+}
